@@ -559,7 +559,72 @@ def setter_completeness(ctx: Ctx, rep: Report, rid: str = "R01.7", platforms=("i
     rep.floor(18, "concrete line setters x platforms")
 
 
+def option_tokens(ctx: Ctx, rep: Report, rid: str = "R01.8") -> None:
+    """Flag and log tokens are the blank-separated words of the option text: the tokeniser of Option.line setter must
+    not cut inside a word (`log-input`, `match-any`, `time-range NAME` are single Cisco keywords)."""
+    from .. import rx
+
+    rep.rule(rid)
+    f = ctx.func("Option.line.setter")
+    param = f.params[1]
+    env = ctx.folder.local_env(f)
+    tainted = {param}
+    changed = True
+    while changed:
+        changed = False
+        for n in own_nodes(f.node):
+            tg, val = None, None
+            if isinstance(n, ast.Assign) and len(n.targets) == 1 and isinstance(n.targets[0], ast.Name):
+                tg, val = n.targets[0].id, n.value
+            elif isinstance(n, ast.AnnAssign) and isinstance(n.target, ast.Name) and n.value is not None:
+                tg, val = n.target.id, n.value
+            if tg and tg not in tainted and names_in(val) & tainted:
+                tainted.add(tg)
+                changed = True
+    found = 0
+    for n in own_nodes(f.node):
+        if not isinstance(n, ast.Call):
+            continue
+        fn = src(n.func)
+        verdict = None
+        if isinstance(n.func, ast.Attribute) and n.func.attr in ("split", "rsplit") and names_in(n.func.value) & tainted and not fn.startswith("re."):
+            sep = n.args[0] if n.args else None
+            sv = ctx.folder.fold(sep, f.module, env) if sep is not None else None
+            if sep is None or (isinstance(sv, str) and sv and sv.isspace()):
+                verdict = (True, "str.split on blanks")
+            else:
+                verdict = (False, f"separator {snippet(sep)} is not blank space")
+        elif fn in ("re.findall", "re.finditer") and len(n.args) >= 2 and names_in(n.args[1]) & tainted:
+            pv = ctx.folder.fold(n.args[0], f.module, env)
+            if isinstance(pv, str):
+                verdict = (rx.is_nonspace_run(pv), f"token pattern {pv!r}" + ("" if rx.is_nonspace_run(pv) else " is not a maximal run of non-blank characters: it cuts keywords such as 'log-input' at the hyphen"))
+            else:
+                verdict = (False, f"token pattern {snippet(n.args[0])} is not a constant")
+        elif fn == "re.split" and len(n.args) >= 2 and names_in(n.args[1]) & tainted:
+            pv = ctx.folder.fold(n.args[0], f.module, env)
+            if isinstance(pv, str):
+                verdict = (rx.is_space_run(pv), f"separator pattern {pv!r}" + ("" if rx.is_space_run(pv) else " matches more than blank space"))
+            else:
+                verdict = (False, f"separator pattern {snippet(n.args[0])} is not a constant")
+        if verdict is None:
+            continue
+        found += 1
+        rep.instance()
+        if verdict[0]:
+            rep.ok(f"Option.line.setter: {snippet(n, 50)}", f"tokens are whole blank-separated words ({verdict[1]})", where=where(f, n))
+        else:
+            rep.violation("Option.line.setter", snippet(n), f"{verdict[1]}: flag and log tokens no longer match the words of the entry's own text", where(f, n), inp="permit tcp any any log-input  ->  logs ['log'], flags ['input']")
+    rep.require(found >= 1, "Option.line setter: no tokeniser (split / re.findall / re.split on the line) found")
+
+
 def run(ctx: Ctx, rep: Report, tier: str) -> None:
+    option_tokens(ctx, rep)
+    # R01.9 operands of a valid ACE are accepted: the operand range is exactly the port universe (C08 R08.8)
+    from .c08 import operand_range
+
+    sub8 = type(rep)("C01")
+    operand_range(ctx, sub8)
+    rep.absorb(sub8, "R01.9")
     classification_guards(ctx, rep)
     setter_completeness(ctx, rep)
     orders = r01_1(ctx, rep)
